@@ -133,6 +133,7 @@ func (t *Term) IsFalse() bool { return t.Op == OConst && t.Sort.K == KBool && t.
 
 // Builder hash-conses terms. Not safe for concurrent use (one per path).
 type Builder struct {
+	Bound map[*Term]*Term // variables whose value is fixed by the path condition
 	tab   map[string]*Term
 	n     int
 	Vars  []*Term
@@ -141,10 +142,27 @@ type Builder struct {
 }
 
 func NewBuilder() *Builder {
-	return &Builder{tab: map[string]*Term{}, UFs: map[string]string{}}
+	return &Builder{tab: map[string]*Term{}, UFs: map[string]string{}, Bound: map[*Term]*Term{}}
 }
 
 func (b *Builder) NumTerms() int { return b.n }
+
+// Resolve replaces a variable bound by the path condition with its value.
+func (b *Builder) Resolve(t *Term) *Term {
+	if t.Op == OVar {
+		if c, ok := b.Bound[t]; ok {
+			return c
+		}
+	}
+	return t
+}
+
+// Bind records that the path condition fixes variable v to constant c.
+func (b *Builder) Bind(v, c *Term) {
+	if v.Op == OVar && c.Op == OConst {
+		b.Bound[v] = c
+	}
+}
 
 func (b *Builder) mk(op Op, s Sort, u uint64, name string, p1, p2 int, args ...*Term) *Term {
 	var sb strings.Builder
@@ -207,6 +225,7 @@ func (b *Builder) FP32C(v float32) *Term {
 }
 
 func (b *Builder) Not(x *Term) *Term {
+	x = b.Resolve(x)
 	if x.IsConst() {
 		return b.BoolC(x.U == 0)
 	}
@@ -217,6 +236,8 @@ func (b *Builder) Not(x *Term) *Term {
 }
 
 func (b *Builder) And(x, y *Term) *Term {
+	x = b.Resolve(x)
+	y = b.Resolve(y)
 	if x.IsConst() {
 		if x.U == 0 {
 			return x
@@ -236,6 +257,8 @@ func (b *Builder) And(x, y *Term) *Term {
 }
 
 func (b *Builder) Or(x, y *Term) *Term {
+	x = b.Resolve(x)
+	y = b.Resolve(y)
 	if x.IsConst() {
 		if x.U == 1 {
 			return x
@@ -255,6 +278,9 @@ func (b *Builder) Or(x, y *Term) *Term {
 }
 
 func (b *Builder) Ite(c, x, y *Term) *Term {
+	c = b.Resolve(c)
+	x = b.Resolve(x)
+	y = b.Resolve(y)
 	if c.IsConst() {
 		if c.U == 1 {
 			return x
@@ -277,6 +303,8 @@ func (b *Builder) Ite(c, x, y *Term) *Term {
 
 // Eq is SMT structural equality (for FP: identity, one NaN, +0 != -0).
 func (b *Builder) Eq(x, y *Term) *Term {
+	x = b.Resolve(x)
+	y = b.Resolve(y)
 	if x == y {
 		return b.BoolC(true)
 	}
@@ -311,6 +339,8 @@ func sext(v uint64, w int) int64 {
 
 // BVBin builds a binary bit-vector operation with constant folding.
 func (b *Builder) BVBin(op Op, x, y *Term) *Term {
+	x = b.Resolve(x)
+	y = b.Resolve(y)
 	w := x.Sort.W
 	if x.Sort != y.Sort {
 		panic(fmt.Sprintf("smt: sort mismatch %v %v in op %d", x.Sort, y.Sort, op))
@@ -445,12 +475,14 @@ func evalBVBin(op Op, w int, x, y uint64) (uint64, bool) {
 }
 
 func (b *Builder) BVNot(x *Term) *Term {
+	x = b.Resolve(x)
 	if x.IsConst() {
 		return b.BVC(x.Sort.W, ^x.U)
 	}
 	return b.mk(OBVNot, x.Sort, 0, "", 0, 0, x)
 }
 func (b *Builder) BVNeg(x *Term) *Term {
+	x = b.Resolve(x)
 	if x.IsConst() {
 		return b.BVC(x.Sort.W, -x.U)
 	}
@@ -458,6 +490,7 @@ func (b *Builder) BVNeg(x *Term) *Term {
 }
 
 func (b *Builder) Extract(hi, lo int, x *Term) *Term {
+	x = b.Resolve(x)
 	if lo == 0 && hi == x.Sort.W-1 {
 		return x
 	}
@@ -468,6 +501,7 @@ func (b *Builder) Extract(hi, lo int, x *Term) *Term {
 }
 
 func (b *Builder) ZeroExt(extra int, x *Term) *Term {
+	x = b.Resolve(x)
 	if extra == 0 {
 		return x
 	}
@@ -478,6 +512,7 @@ func (b *Builder) ZeroExt(extra int, x *Term) *Term {
 }
 
 func (b *Builder) SignExt(extra int, x *Term) *Term {
+	x = b.Resolve(x)
 	if extra == 0 {
 		return x
 	}
@@ -488,6 +523,8 @@ func (b *Builder) SignExt(extra int, x *Term) *Term {
 }
 
 func (b *Builder) Concat(hi, lo *Term) *Term {
+	hi = b.Resolve(hi)
+	lo = b.Resolve(lo)
 	if hi.IsConst() && lo.IsConst() {
 		return b.BVC(hi.Sort.W+lo.Sort.W, hi.U<<uint(lo.Sort.W)|lo.U)
 	}
@@ -509,6 +546,8 @@ func (b *Builder) Resize(x *Term, w int, signed bool) *Term {
 }
 
 func (b *Builder) FPBin(op Op, x, y *Term) *Term {
+	x = b.Resolve(x)
+	y = b.Resolve(y)
 	rs := x.Sort
 	switch op {
 	case OFPLt, OFPLeq, OFPEq:
@@ -537,6 +576,7 @@ func (b *Builder) FPBin(op Op, x, y *Term) *Term {
 }
 
 func (b *Builder) FPUn(op Op, x *Term) *Term {
+	x = b.Resolve(x)
 	rs := x.Sort
 	switch op {
 	case OFPIsNaN, OFPIsInf:
@@ -562,6 +602,7 @@ func (b *Builder) FPUn(op Op, x *Term) *Term {
 
 // FPRti: round to integral with mode (0 RNE, 1 RTN floor, 2 RTP ceil, 3 RTZ trunc)
 func (b *Builder) FPRti(mode int, x *Term) *Term {
+	x = b.Resolve(x)
 	if x.IsConst() && x.Sort.K == KFP64 {
 		fx := math.Float64frombits(x.U)
 		switch mode {
@@ -581,12 +622,14 @@ func (b *Builder) FPRti(mode int, x *Term) *Term {
 func (b *Builder) FPToSBV(w int, x *Term) *Term { return b.mk(OFPToSBV, BV(w), 0, "", w, 0, x) }
 func (b *Builder) FPToUBV(w int, x *Term) *Term { return b.mk(OFPToUBV, BV(w), 0, "", w, 0, x) }
 func (b *Builder) SBVToFP(s Sort, x *Term) *Term {
+	x = b.Resolve(x)
 	if x.IsConst() && s.K == KFP64 {
 		return b.FPC(float64(sext(x.U, x.Sort.W)))
 	}
 	return b.mk(OSBVToFP, s, 0, "", 0, 0, x)
 }
 func (b *Builder) UBVToFP(s Sort, x *Term) *Term {
+	x = b.Resolve(x)
 	if x.IsConst() && s.K == KFP64 {
 		return b.FPC(float64(x.U))
 	}
